@@ -10,7 +10,10 @@ use std::process::{Command, Stdio};
 use std::sync::mpsc;
 use std::time::{Duration, Instant};
 
-pub const VERIF: &str = "/verif";
+/// root of the verification tree: /verif, or the snapshot a background run works in
+pub fn root() -> String {
+    std::env::var("BPAFMC_ROOT").unwrap_or_else(|_| "/verif".to_string())
+}
 
 #[derive(Clone, Copy, Debug, PartialEq, Eq)]
 pub enum Tier {
@@ -283,8 +286,8 @@ pub fn scrub_env(c: &mut Command) {
     c.env("HOME", "/nonexistent");
     c.env("LANG", "C");
     c.env("NO_COLOR", "1");
-    if let Ok(v) = std::env::var("BPAFMC_ALT_DIR") {
-        c.env("BPAFMC_ALT_DIR", v);
+    if let Ok(v) = std::env::var("BPAFMC_ROOT") {
+        c.env("BPAFMC_ROOT", v);
     }
 }
 
@@ -454,13 +457,13 @@ pub fn hash_str(s: &str) -> String {
 }
 
 fn write_replay(v: &Violation, count: u64) -> String {
-    let dir = format!("{}/replays", VERIF);
+    let dir = format!("{}/replays", root());
     let _ = std::fs::create_dir_all(&dir);
     let path = format!("{}/{}-{}.json", dir, v.property, &hash_str(&v.sig_key())[..12]);
     let body = json!({
         "property": v.property, "rule": v.rule, "sig": v.sig, "unit": v.unit, "case": v.case,
         "expected": v.expected, "observed": v.observed, "occurrences_in_this_run": count,
-        "how_to_replay": format!("cd /verif && ./check replay {}", path),
+        "how_to_replay": format!("cd {} && ./check replay {}", root(), path),
     });
     let _ = std::fs::write(&path, serde_json::to_string_pretty(&body).unwrap());
     path
@@ -535,7 +538,7 @@ pub fn supervisor_main(check: &dyn Check, tier: Tier, seed: u64) -> i32 {
     let exe = std::env::current_exe().expect("current_exe");
     let id = check.id();
     // replay files of earlier runs of this check are stale
-    if let Ok(rd) = std::fs::read_dir(format!("{}/replays", VERIF)) {
+    if let Ok(rd) = std::fs::read_dir(format!("{}/replays", root())) {
         for e in rd.flatten() {
             if e.file_name().to_string_lossy().starts_with(&format!("{}-", id)) {
                 let _ = std::fs::remove_file(e.path());
@@ -587,12 +590,12 @@ pub fn supervisor_main(check: &dyn Check, tier: Tier, seed: u64) -> i32 {
     }
 
     // known findings
-    let known: KnownFile = std::fs::read_to_string(format!("{}/known_findings.json", VERIF)).ok().and_then(|s| serde_json::from_str(&s).ok()).unwrap_or_default();
+    let known: KnownFile = std::fs::read_to_string(format!("{}/known_findings.json", root())).ok().and_then(|s| serde_json::from_str(&s).ok()).unwrap_or_default();
     let mut known_active: Vec<(KnownFinding, bool)> = Vec::new();
     for k in known.findings.iter().filter(|k| k.property == id) {
         // replay the witness in-process through a temp replay file in a fresh process
-        let tmp = format!("{}/replays/.witness-{}-{}.json", VERIF, id, k.id);
-        let _ = std::fs::create_dir_all(format!("{}/replays", VERIF));
+        let tmp = format!("{}/replays/.witness-{}-{}.json", root(), id, k.id);
+        let _ = std::fs::create_dir_all(format!("{}/replays", root()));
         let body = json!({"property": k.property, "rule": k.rule, "unit": k.witness.unit, "case": k.witness.case});
         let _ = std::fs::write(&tmp, body.to_string());
         let still = replay_fresh(&exe, &tmp) == Some(true);
@@ -683,8 +686,8 @@ pub fn supervisor_main(check: &dyn Check, tier: Tier, seed: u64) -> i32 {
         "wall_s": (wall * 100.0).round() / 100.0,
         "violations": n_viol,
     });
-    let _ = std::fs::create_dir_all(format!("{}/evidence", VERIF));
-    let ev_path = format!("{}/evidence/{}.json", VERIF, id);
+    let _ = std::fs::create_dir_all(format!("{}/evidence", root()));
+    let ev_path = format!("{}/evidence/{}.json", root(), id);
     if let Err(e) = std::fs::write(&ev_path, serde_json::to_string_pretty(&evidence).unwrap()) {
         eprintln!("machinery failure: cannot write evidence: {}", e);
         return 2;
